@@ -9,6 +9,18 @@ AX_R = ('axioms: the three real-number axioms of the Coq standard library (Class
         'sig_forall_dec, FunctionalExtensionality.functional_extensionality_dep) where Reals are used; ')
 
 CHECKS = {
+    'C20': dict(
+        technique='Coq proof over R that Cython kernels and the Python routines they replace are the same function, both sides regenerated from source on every run (pyx kernels through a textual pyx->Python conversion, then py2coq); converted kernels executed against the pure-Python implementation',
+        text='PARTIAL (source level, conversion module only; the extensions cannot be built here). Theorems in coq/Props/C20.v about definitions '
+             'regenerated from cmoment_tensor_conversion.pyx and moment_tensor_conversion.py: the Hudson (u,v) kernel equals tk_uv for all '
+             'tau, k; the (tau,k) kernel equals E_tk on sorted eigenvalues; the lune kernel (no clip, E0==E2 test) equals E_GD on sorted '
+             'non-zero eigenvalues; the strike/dip/rake kernel equals FP_SDR on unit vectors whose normal points upwards. For every real '
+             'input, where the (skipped) *_cython tests compare a few fixed inputs.',
+        note=AX_R + 'NOT covered: the compiled binaries, C arithmetic and memory views, the dispatch wrappers, cTape_MT6 (executed against '
+             'Tape_MT6 but not proved), and the other extension modules (cprobability, cmarkov_chain_monte_carlo, cscatangle) - no Cython '
+             'toolchain exists in this environment and those kernels are loops over typed memory views outside the translated fragment. '
+             'tools/py2coq/pyx.py is trusted textual glue.',
+        design='6 C20'),
     'C08': dict(
         technique='Coq proof over R (field/ring/lra, Lagrange identity) about a hand-written model, over abstract arithmetic, of one random sample as a function of the normal draws it consumes; bit-exact PrimFloat correspondence against the real generators fed with recorded draws',
         text='Theorems in coq/Props/C08.v: the normalised six Gaussian draws have unit norm and the joint density of the draws depends only on '
